@@ -421,9 +421,10 @@ func featTag(op string, f Feat) string {
 		add(!f.Open && f.Spike, "spike")
 	case "Filling":
 		add(f.NSub >= 2, "multi-subpath")
-	case "Flatten", "Stroke", "Offset", "Dash", "SplitAt", "Clip", "XMonotone":
+	case "Flatten", "Stroke", "Offset", "Dash", "SplitAt", "XMonotone", "ReplaceArcs", "ToPDF", "CCW":
 		add(f.CurveLoop, "bezier-loop")
 		add(!f.CurveLoop && (f.QuadFlat || f.CubeFlat), "flat-bezier")
+		add(!f.CurveLoop && !(f.QuadFlat || f.CubeFlat) && f.NRev > 0, "collinear-reversal")
 	}
 	return t
 }
